@@ -39,6 +39,8 @@ pub struct Extra {
 
 fn oracle_of(inp: &Input) -> crate::mid::Oracle {
     match inp.ring {
+        // (0, idx) stands for the sparse large ADF #idx
+        Some((0, idx)) => crate::mid::Oracle::from_formulas(&crate::mid::sparse(idx)),
         Some((n, idx)) => crate::mid::Oracle::from_formulas(&crate::mid::ring(n, idx)),
         None => crate::mid::Oracle::from_tts(&inp.tts),
     }
@@ -343,7 +345,7 @@ struct Job {
 
 pub fn run_c15(run: &Run) {
     writers_selfcheck();
-    run.set_rule("the CLI binary built from the working tree is run on: A(2) (all 256 ADFs, index-derived writers) x 3 library modes x {none, --lx, --an} x every single semantics flag; F(3,1) (512 ADFs) x 3 modes x cycled sorting x a residue class of the 45 flag pairs; fixed three-statement files (0-3 stable models, two-valued non-stable models, sorting-sensitive, keyword-like, quoted and biodivine-reserved labels) x 3 modes x all 1024 flag subsets; --heu with all four values (and absent) x {--stmng, --twoval, both} x {naive, hybrid} on A(2); malformed inputs. Oracle from the definitions: exit status 0; every stdout line is an interpretation labelling exactly the declared statements, in declaration order (no sorting) / byte-wise order (--lx); first the grounded line (--grd), then the complete models starting with the grounded one (--com), then a multiset equal to a copies of the stable models and b copies of the two-valued models, where a and b range from the number of given flags the mode must honour to the number given. Non-trivial: runs with >= 2 flags or a sorting flag.");
+    run.set_rule("the CLI binary built from the working tree is run on: A(2) (all 256 ADFs, index-derived writers) x 3 library modes x {none, --lx, --an} x every single semantics flag; F(3,1) (512 ADFs) x 3 modes x cycled sorting x a residue class of the 45 flag pairs; fixed three-statement files (0-3 stable models, two-valued non-stable models, sorting-sensitive, keyword-like, quoted and biodivine-reserved labels) x 3 modes x all 1024 flag subsets; --heu with all four values (and absent) x {--stmng, --twoval, both} x {naive, hybrid} on A(2); larger inputs (ring ADFs of 6-8 statements, sparse ADFs of 70/130/270 statements with the open part at the highest positions) x 3 modes x 3 sortings; malformed inputs. Oracle from the definitions: exit status 0; every stdout line is an interpretation labelling exactly the declared statements, in declaration order (no sorting) / byte-wise order (--lx); first the grounded line (--grd), then the complete models starting with the grounded one (--com), then a multiset equal to a copies of the stable models and b copies of the two-valued models, where a and b range from the number of given flags the mode must honour to the number given. Non-trivial: runs with >= 2 flags or a sorting flag.");
     run.assume("(mode, flag) pairs documented or implemented as unsupported may print nothing or the right section: naive must honour grd/com/stm/stmng, biodivine grd/com/stm/stmrew/stmrew2, hybrid everything; --stmrew and --stmrew2 together are one section; the relative order of the sections after complete is not asserted; label order under --an is not asserted");
     let quick = run.quick();
     let cli = cli_path();
@@ -363,10 +365,35 @@ pub fn run_c15(run: &Run) {
     }
     let fixed_from = inputs.len();
     inputs.extend(fixed_inputs());
+    // larger inputs: ring ADFs (6-8 statements) and sparse ADFs of 70 / 130 / 270 statements whose open part sits at
+    // the highest positions (beyond 64 and 255); oracle from the formulas
+    let big_from = inputs.len();
+    for k in 0..(if quick { 6u64 } else { 24 }) {
+        let idx = run.seed * 1000 + k;
+        let l = crate::mid::sparse(idx);
+        inputs.push(Input { labels: l.labels.clone(), text: l.text(None, ("\n", "", "")), tts: vec![], ring: Some((0, idx)) });
+    }
+    for k in 0..(if quick { 9u64 } else { 60 }) {
+        let n = 6 + (k % 3) as usize;
+        let idx = (k * 104729 + run.seed * 17) % crate::mid::ring_size(n);
+        let l = crate::mid::ring(n, idx);
+        inputs.push(Input { labels: l.labels.clone(), text: l.text(None, ("\n", "", "")), tts: vec![], ring: Some((n, idx)) });
+    }
+    let big_to = inputs.len();
     for (i, inp) in inputs.iter().enumerate() {
         std::fs::write(format!("{}/in_{}.adf", tmp.0, i), &inp.text).unwrap_or_else(|_| machinery_error("cannot write input file"));
     }
     let mut jobs: Vec<Job> = vec![];
+    // (first, because these runs take longest) larger inputs: every mode x every sorting x {grd+com+stm, stmng+twoval (+ --heu), everything hybrid offers}
+    for file in big_from..big_to {
+        for mode in 0..3 {
+            for sort in 0..3 {
+                jobs.push(Job { file, mode, sort, flags: 0b111, heu: None, extra: Extra::default() });
+            }
+            jobs.push(Job { file, mode, sort: file % 3, flags: (1 << 8) | (1 << 9) | 1, heu: Some(file % 3), extra: Extra::default() });
+        }
+        jobs.push(Job { file, mode: 2, sort: (file + 1) % 3, flags: 0b0111111101, heu: None, extra: Extra::default() });
+    }
     // A(2): single flags
     for file in 0..256 {
         for mode in 0..3 {
@@ -395,7 +422,7 @@ pub fn run_c15(run: &Run) {
         }
     }
     // fixed files: all subsets
-    let nfixed = inputs.len() - fixed_from;
+    let nfixed = big_from - fixed_from;
     for k in 0..nfixed {
         if quick && k % 3 != (run.seed % 3) as usize && k < 12 {
             continue;
@@ -431,6 +458,22 @@ pub fn run_c15(run: &Run) {
             jobs.push(Job { file: fixed_from + k, mode: 0, sort: k % 3, flags: (1 << 8) | 1, heu: Some(h), extra: Extra::default() });
         }
     }
+    // work is handed out in chunks of consecutive jobs: spread the long runs (larger inputs) evenly over the list
+    {
+        let (big, small): (Vec<Job>, Vec<Job>) = jobs.into_iter().partition(|j| j.file >= big_from && j.file < big_to);
+        let every = (small.len() / big.len().max(1)).max(1);
+        let mut big = big.into_iter();
+        jobs = Vec::with_capacity(small.len() + big.len());
+        for (i, j) in small.into_iter().enumerate() {
+            if i % every == 0 {
+                if let Some(b) = big.next() {
+                    jobs.push(b);
+                }
+            }
+            jobs.push(j);
+        }
+        jobs.extend(big);
+    }
     let res = run.par_family(
         &format!("{} CLI runs over {} input files", jobs.len(), inputs.len()),
         jobs.len() as u64,
@@ -452,7 +495,7 @@ pub fn run_c15(run: &Run) {
                 run.violation(
                     &kind,
                     format!("{} [--lib {} {} {} {}] on {}", msg, MODES[job.mode], SORTS[job.sort], flags.join(" "), job.heu.map(|h| format!("--heu {}", HEUS[h])).unwrap_or_default(), inp.text.replace('\n', "")),
-                    json!({"type": "cli", "text": inp.text, "labels": inp.labels, "tts": inp.tts, "mode": MODES[job.mode], "sort": job.sort, "flags": job.flags, "heu": job.heu.map(|h| HEUS[h])}),
+                    json!({"type": "cli", "text": inp.text, "labels": inp.labels, "tts": inp.tts, "mode": MODES[job.mode], "sort": job.sort, "flags": job.flags, "heu": job.heu.map(|h| HEUS[h]), "ring": inp.ring.map(|r| vec![r.0 as u64, r.1])}),
                 );
             }
         },
